@@ -48,6 +48,9 @@ def classify(case, vals, rr):
     # execute phase: anything is a violation; find the earliest failing node for the bucket key
     idx = failing_node(case, vals)
     op, pred = buckets.key(prog, idx, rr.arrays, rr.phase, rr.exc_type)
+    if pred == "size0-operands-different-chunks":
+        # one root cause (rechunking is skipped for empty arrays), whatever exception the mismatched blocks end in
+        return Failure("execute:multi-operand:size0-operands-different-chunks", f"{rr.exc_type} at {rr.where}: {rr.exc_msg}")
     return Failure(f"execute:{rr.exc_type}:{op}:{pred}", f"{rr.exc_type} at {rr.where}: {rr.exc_msg}")
 
 
